@@ -449,6 +449,7 @@ def run(ctx):
     run_arrays(ctx)
     run_square(ctx)
     run_functions(ctx)
+    lib.repo_tests_under_monitor(ctx, 'C12', ['draw'])
     if ctx.shard == 0:
         run_constructor_only(ctx)
         ctx.sample({'sampler': "SquareMatrices(dimension=3, symmetry='hermitian', traceless=True, determinant=None)",
